@@ -179,12 +179,19 @@ func (e *Exec) buildCex(label string, negated *Term) map[string]any {
 		collect(s)
 	}
 	declaredFun := map[string]bool{}
+	argOf := map[string]map[string]bool{} // op -> keys of the terms it is applied to on this path
 	var ctors []*Term
 	var selects []*Term
 	var hashes []*Term
 	for _, u := range all {
 		if u.Op != "sym" && u.Op != "const" && u.Op != "strlit" {
 			declaredFun[u.Op] = true
+			if (u.Op == "str.trim" || u.Op == "str.lower" || u.Op == "str.hasupper") && len(u.Args) == 1 {
+				if argOf[u.Op] == nil {
+					argOf[u.Op] = map[string]bool{}
+				}
+				argOf[u.Op][u.Args[0].Key()] = true
+			}
 		}
 		if (u.S == StrSort || u.S == BytesSort) && isConstructor(u) {
 			ctors = append(ctors, u)
@@ -256,10 +263,18 @@ func (e *Exec) buildCex(label string, negated *Term) map[string]any {
 			if declaredFun["str.ord"] {
 				facts = append(facts, fact{s, "ord", App("str.ord", IntSort, s)})
 			}
-			if declaredFun["str.lower"] {
-				facts = append(facts, fact{s, "hasupper", App("str.hasupper", BoolSort, s)})
+			// facts about trimming / case only for the strings the path trims or lower-cases (for any other string
+			// the model's value of these functions is arbitrary and must not shape the realisation)
+			var upper []*Term
+			for _, cand := range []*Term{s, App("str.trim", StrSort, s)} {
+				if argOf["str.lower"][cand.Key()] || argOf["str.hasupper"][cand.Key()] {
+					upper = append(upper, App("str.hasupper", BoolSort, cand))
+				}
 			}
-			if declaredFun["str.trim"] {
+			if len(upper) > 0 {
+				facts = append(facts, fact{s, "hasupper", Or(upper...)})
+			}
+			if argOf["str.trim"][s.Key()] {
 				facts = append(facts, fact{s, "trimlen", App("str.len", IntSort, App("str.trim", StrSort, s))})
 			}
 		case BytesSort:
